@@ -78,6 +78,9 @@ Proof.
   intros _. exists i, r. apply strip_prefix_app. assumption.
 Qed.
 
+Lemma is_prefix_refl k : is_prefix k k = true.
+Proof. induction k as [|s k IH]; simpl; [reflexivity|]. rewrite String.eqb_refl. assumption. Qed.
+
 (** a name whose path is [map SK k ++ SI i :: _] has key prefix [k] and an index *)
 Lemma psegs_prefix_index : forall k parts i R,
   psegs parts = map SK k ++ SI i :: R -> name_prefix parts = k /\ has_index parts = true.
@@ -260,8 +263,8 @@ Section WithOrder.
       apply contrib_lst_path in Ca as (ia & ra & Pa). apply contrib_lst_path in Cb as (ib & rb & Pb).
       unfold tof, parse_path in Pa, Pb. simpl in Pa, Pb.
       apply psegs_prefix_index in Pa as [Na Ia]. apply psegs_prefix_index in Pb as [Nb Ib].
-      rewrite Ia, Ib, Na, Nb in HF3.
-      rewrite (proj2 (segs_eqb_eq k k) eq_refl) in HF3.
+      unfold f3_pair in HF3. rewrite Na, Nb in HF3.
+      rewrite is_prefix_refl in HF3.
       assert (Hl : (2 <=? length k) = true) by (apply Nat.leb_le; assumption).
       rewrite Hl in HF3. simpl in HF3.
       apply negb_false_iff in HF3.
